@@ -124,7 +124,7 @@ class ByteInterval(Node):
     address = _IndexedAttribute[typing.Optional[int]]()(
         lambda self: self.section
     )
-    size = _IndexedAttribute[int]()(lambda self: self.section)
+    _indexed_size = _IndexedAttribute[int]()(lambda self: self.section)
 
     def __init__(
         self,
@@ -163,8 +163,8 @@ class ByteInterval(Node):
         super().__init__(uuid=uuid)
         self._section: typing.Optional["Section"] = None
         self.address = address
-        self.size = size
         self.contents = bytearray(contents)
+        self.size = size
         self.initialized_size = initialized_size
 
         # Both blocks and _interval_tree must exist before adding any blocks.
@@ -197,6 +197,17 @@ class ByteInterval(Node):
 
     def _index_discard(self, block: ByteBlock) -> None:
         self._interval_tree.discard(block)
+
+    @property
+    def size(self) -> int:
+        return self._indexed_size
+
+    @size.setter
+    def size(self, value: int) -> None:
+        self._indexed_size = value
+        # Stored bytes never extend past the end of the interval.
+        if value < len(self.contents):
+            self.contents = self.contents[:value]
 
     @property
     def initialized_size(self) -> int:
